@@ -1,12 +1,20 @@
 #!/usr/bin/env python3
 """Pin the current list of property theorems (checks/required_theorems.json).  A theorem that is later deleted or
-renamed in Props/Cxx.lean is then reported by ./check as a broken obligation instead of silently shrinking the count."""
+renamed in Props/Cxx.lean (or Props/CxxSrc.lean, the second-tie module) is then reported by ./check as a broken obligation
+instead of silently shrinking the count.   usage: pin_theorems.py [Cxx ...]   (default: every claimed property)"""
 import json, os, sys
 sys.path.insert(0, os.path.dirname(os.path.abspath(__file__)))
 import veriflib as V
-out = {}
-for pid in sorted(open(os.path.join(V.VERIF, "checks", "READY")).read().split()):
+path = os.path.join(V.VERIF, "checks", "required_theorems.json")
+out = json.load(open(path)) if os.path.exists(path) else {}
+ready = sorted(open(os.path.join(V.VERIF, "checks", "READY")).read().split())
+for pid in (sys.argv[1:] or ready):
     cfg = V.load_config(pid)
-    out[pid] = V.theorems_of(cfg.PROPS) + (V.theorems_of(cfg.PROPS_SRC) if getattr(cfg, "PROPS_SRC", None) else [])
-json.dump(out, open(os.path.join(V.VERIF, "checks", "required_theorems.json"), "w"), indent=1)
-print({k: len(v) for k, v in out.items()})
+    new = V.theorems_of(cfg.PROPS) + (V.theorems_of(cfg.PROPS_SRC) if getattr(cfg, "PROPS_SRC", None) else [])
+    gone = [t for t in out.get(pid, []) if t not in new]
+    if gone:
+        print(f"{pid}: WARNING, previously pinned theorems no longer present: {gone}")
+    out[pid] = new
+json.dump({k: out[k] for k in sorted(out)}, open(path, "w"), indent=1)
+open(path, "a").write("\n")
+print({k: len(v) for k, v in sorted(out.items())})
